@@ -102,6 +102,7 @@ pub static C02: Profile = Profile {
     liveness: false,
     enumerate: None,
     extra: None,
+    borrow: &["C01", "C03", "C04", "C05", "C06", "C07", "C08", "C09", "C10", "C11", "C12", "C13", "C14", "C15", "C18", "C19"],
     assumptions: &["order among overlapping dispatch calls is unconstrained, as in the statement"],
 };
 
@@ -196,6 +197,7 @@ pub static C03: Profile = Profile {
     liveness: false,
     enumerate: None,
     extra: None,
+    borrow: &["C01", "C02", "C04", "C05", "C06", "C07", "C08", "C09", "C10", "C11", "C12", "C13", "C14", "C15", "C18", "C19"],
     assumptions: &["chains that mix Dispatch and Keep, vetoed actions and reducer-less stores: notification accepted either way (but then for all subscribers alike)"],
 };
 
@@ -268,6 +270,7 @@ pub static C07: Profile = Profile {
     liveness: false,
     enumerate: None,
     extra: None,
+    borrow: &["C01", "C02", "C03", "C04", "C05", "C06", "C08", "C09", "C10", "C11", "C12", "C13", "C14", "C15", "C18", "C19"],
     assumptions: &["order between two components whose registrations overlapped in time is unconstrained"],
 };
 
@@ -435,5 +438,6 @@ pub static C08: Profile = Profile {
     liveness: true,
     enumerate: None,
     extra: None,
+    borrow: &["C01", "C02", "C03", "C04", "C05", "C06", "C07", "C09", "C10", "C11", "C12", "C13", "C14", "C15", "C18", "C19"],
     assumptions: &["states are identified by their 64-bit hash chain value"],
 };
